@@ -71,7 +71,18 @@ func (d Deleg) InboxForwarding(c context.Context, inboxIRI *url.URL, activity pu
 }
 func (d Deleg) PostOutbox(c context.Context, a pub.Activity, outboxIRI *url.URL, rawJSON map[string]interface{}) (bool, error) {
 	_, err := d.A.point(c, "Delegate.PostOutbox", us(outboxIRI), true)
-	return false, err
+	if err != nil {
+		return false, err
+	}
+	// the delegate's job: store the activity and put its id at the front of the outbox
+	if idp := a.GetJSONLDId(); idp != nil && idp.IsIRI() {
+		id := us(idp.GetIRI())
+		if m, e := streams.Serialize(a); e == nil {
+			d.A.Store[id] = MustJSON(m)
+		}
+		d.A.Outboxes[us(outboxIRI)] = append([]string{id}, d.A.Outboxes[us(outboxIRI)]...)
+	}
+	return false, nil
 }
 func (d Deleg) AddNewIDs(c context.Context, a pub.Activity) error {
 	_, err := d.A.point(c, "Delegate.AddNewIDs", "", true)
